@@ -1,8 +1,8 @@
 SPECIFICATION Spec
-INVARIANTS StrLaws FindLaws FmtLaws NumLaws FltLaws WideLaws
+INVARIANTS StrLaws FindLaws FmtLaws NumLaws FltLaws WideLaws SzLaws
 CHECK_DEADLOCK FALSE
 CONSTANTS
-  Scopes = {"str", "find", "fmt", "num", "flt", "wide"}
+  Scopes = {"str", "find", "fmt", "num", "flt", "wide", "sz"}
   Win = 2
   AlphaStr = {0, 65, 97, 122, 200}
   LenStr = 3
